@@ -29,6 +29,8 @@ func init() {
 			{ID: "C03.R9", Text: "no event waits for a threshold nobody reports: the flag the gate reads is the one Open switches when it does not start the mitigation component (same rule as C07.R12)", Run: gateSourceAgrees},
 			{ID: "C03.R10", Text: "the collection names are those resolved at start-up: stream.collectionIDs is assigned only by NewStream", Run: fieldWriters("stream", "stream", "collectionIDs", "a later assignment (a refresh that failed, say) hands every new observer a different or nil id-to-name table", "stream.NewStream")},
 			{ID: "C03.R11", Text: "events are labelled from the table resolved at start-up: GetCollectionIDs returns exactly {id the server resolved for a name → that name} over the configured names (empty without collection support), and no table when a resolution fails (0..2 names, exhaustive)", Run: collectionIDsExact},
+			{ID: "C03.R12", Text: "the user's listener sees each event once: the simple consumer calls it exactly once (closures and deferred functions included) with the event it was given, every constructor hands the consumer on, Start gives NewStream the stored consumer and the resolved collection table", Run: func(c *Ctx, id string) { consumerChainRule(c, id) }},
+			{ID: "C03.R13", Text: "the id→name table is read-only once built: no update, delete or clear on a map[uint32]string except while filling a map made in the same function (the table is shared by all observers of a session)", Run: collectionTableReadOnly},
 			{ID: "C03.R6", Text: "the delivery switch is thrown only by the stream's close: observer.closed is written only by Observer.Close, which is called only from Stream.Close (a reopened stream reuses its observer)", Run: switchOwner},
 		},
 	})
